@@ -451,8 +451,11 @@ class Scenario(object):
                       to_ok=list(env.recipients) == [orig.sender], sender_empty=not env.sender,
                       # the reply the relay gave (scripted: code, enhanced status code and text are known from its number), not
                       # merely the reply object the queue handed to the bounce factory
+                      # (... and says "(Too many retries)" at most once: the queue adds it once, when it gives up - a reply object
+                      #  shared between messages would collect one per message)
                       quotes_reply=((reply.message or '').encode() in whole and reply.code.encode() in whole and
-                                    (not re.fullmatch(r'[45]\.\d+\.\d+ rid\d+( \(Too many retries\))*', reply.message or '') or
+                                    b'(Too many retries) (Too many retries)' not in whole and
+                                    (not re.fullmatch(r'[45]\.\d+\.\d+ rid\d+( \(Too many retries\))?', reply.message or '') or
                                      (('%s rid%d' % ('4.2.1' if reply.code.startswith('4') else '5.1.1', rid_of(reply))).encode() in whole))),
                       has_headers=ohdr.rstrip(b'\r\n') in whole,
                       has_body=(obody in whole), headers_only=bool(cfg.get('headers_only', False)),
